@@ -112,11 +112,18 @@ struct MEv {
 struct Trig(u64);
 #[derive(Event, Serialize, Deserialize, Debug, Clone)]
 struct Good(u32);
+/// Trigger of the well-behaved client, aimed at the probe entity: its targets must arrive untouched
+/// whatever a hostile peer put on the trigger channels in the same frame.
+#[derive(Event, Serialize, Deserialize, Debug, Clone)]
+struct GoodTrig(u32);
 
 #[derive(Resource, Default)]
 struct Seen {
     good: Vec<(Entity, u32)>,
+    /// (sender, seq, target) per observer invocation
+    good_trigs: Vec<(Entity, u32, Entity)>,
     hostile_events: u64,
+    hostile_trigs: u64,
 }
 
 fn mk(auth: AuthMethod) -> App {
@@ -132,6 +139,7 @@ fn mk(auth: AuthMethod) -> App {
     .add_mapped_client_event::<MEv>(Channel::Unordered)
     .add_client_trigger::<Trig>(Channel::Unreliable)
     .add_client_event::<Good>(Channel::Ordered)
+    .add_client_trigger::<GoodTrig>(Channel::Ordered)
     .add_systems(
         Last,
         (
@@ -145,7 +153,14 @@ fn mk(auth: AuthMethod) -> App {
             },
         ),
     )
-    .add_observer(|_t: Trigger<FromClient<Trig>>, mut s: ResMut<Seen>| s.hostile_events += 1);
+    .add_observer(|_t: Trigger<FromClient<Trig>>, mut s: ResMut<Seen>| {
+        s.hostile_events += 1;
+        s.hostile_trigs += 1;
+    })
+    .add_observer(|t: Trigger<FromClient<GoodTrig>>, mut s: ResMut<Seen>| {
+        let (c, q, tg) = (t.event().client, t.event().event.0, t.target());
+        s.good_trigs.push((c, q, tg));
+    });
     app.finish();
     app
 }
@@ -172,6 +187,7 @@ struct World6 {
     convergence_checks: u64,
     legit_checks: u64,
     retention_checks: u64,
+    malformed_trigger_checks: u64,
     lonely_floods: u64,
     frames: u64,
     /// a panic unwound through App::update: the world is poisoned, nothing more is fed
@@ -193,7 +209,7 @@ impl World6 {
         good.world_mut().resource_mut::<RepliconClient>().set_status(RepliconClientStatus::Connected);
         let nch = server.world().resource::<RepliconChannels>().client_channels().len();
         let proto = (auth == AuthMethod::ProtocolCheck) as usize;
-        assert_eq!(nch, 1 + proto + 4, "harness: unexpected client channel layout");
+        assert_eq!(nch, 1 + proto + 5, "harness: unexpected client channel layout");
         let mut w = World6 {
             auth,
             server,
@@ -214,6 +230,7 @@ impl World6 {
             convergence_checks: 0,
             legit_checks: 0,
             retention_checks: 0,
+            malformed_trigger_checks: 0,
             lonely_floods: 0,
             frames: 0,
             dead: false,
@@ -304,17 +321,30 @@ impl World6 {
             self.server.world_mut().resource_mut::<RepliconServer>().insert_received(sender, *ch, b);
         }
         let mut legit_seq = None;
+        let mut legit_trig = false;
+        // reference decoding of what goes to the hostile trigger channel: a message whose target list
+        // does not decode (count, then that many valid entity encodings) must be discarded
+        let trig_ch = 3 + self.proto;
+        let trig_msgs: Vec<&Vec<u8>> = batch.iter().filter(|(ch, _)| *ch == trig_ch).map(|(_, b)| b).collect();
+        let all_trigs_malformed = !trig_msgs.is_empty() && trig_msgs.iter().all(|b| !targets_decode(b));
+        let hostile_trigs_before = self.server.world().resource::<Seen>().hostile_trigs;
         if legit {
             self.good_seq += 1;
             let seq = self.good_seq;
             self.good.world_mut().send_event(Good(seq));
+            let probe_on_client = self.good.world().resource::<ServerEntityMap>().to_client().get(&self.probe).copied();
+            if let Some(pc) = probe_on_client {
+                self.good.world_mut().client_trigger_targets(GoodTrig(seq), pc);
+            }
             self.good.update();
             let msgs: Vec<_> = self.good.world_mut().resource_mut::<RepliconClient>().drain_sent().collect();
             for (ch, m) in msgs {
                 self.server.world_mut().resource_mut::<RepliconServer>().insert_received(self.good_ent, ch, m);
             }
             self.server.world_mut().resource_mut::<Seen>().good.clear();
+            self.server.world_mut().resource_mut::<Seen>().good_trigs.clear();
             legit_seq = Some(seq);
+            legit_trig = probe_on_client.is_some();
         }
         MAX_REQ.store(0, Relaxed);
         SUM_REQ.store(0, Relaxed);
@@ -345,6 +375,23 @@ impl World6 {
                 let ge = self.good_ent;
                 if !self.server.world().resource::<Seen>().good.contains(&(ge, seq)) {
                     self.errs.push(format!("an event of a well-behaved client queued in the same frame behind {what} was not handled by the server"));
+                }
+                if legit_trig {
+                    // (what the hostile peers themselves managed to trigger on that channel is their business)
+                    let got: Vec<_> = self.server.world().resource::<Seen>().good_trigs.iter().copied().filter(|(c, _, _)| *c == ge).collect();
+                    if got != vec![(ge, seq, self.probe)] {
+                        self.errs.push(format!(
+                            "a trigger of a well-behaved client aimed at {} and queued in the same frame behind {what} was observed as {got:?} (expected once, for that entity only)",
+                            self.probe
+                        ));
+                    }
+                }
+            }
+            if all_trigs_malformed {
+                self.malformed_trigger_checks += 1;
+                let n = self.server.world().resource::<Seen>().hostile_trigs - hostile_trigs_before;
+                if n != 0 {
+                    self.errs.push(format!("a trigger message whose target list does not decode was not discarded: {n} trigger observation(s) while processing {what}"));
                 }
             }
             // mismatch notifications, disconnect requests etc. are not our business here; replication
@@ -495,6 +542,21 @@ fn lonely_flood(w: &mut World6, r: &mut Rng) {
     if got != Some(7) {
         w.errs.push(format!("after a flood from unauthorized connections a well-behaved client that joins sees Hp={got:?}, the server has 7"));
     }
+}
+
+/// Reference decoder for the head of a trigger message: `count | entity * count | payload`.
+fn targets_decode(b: &[u8]) -> bool {
+    let Some((n, mut off)) = wire::varint(b) else { return false };
+    for _ in 0..n {
+        if off > b.len() {
+            return false;
+        }
+        match wire::entity(&b[off..]) {
+            Some((_, k)) => off += k,
+            None => return false,
+        }
+    }
+    true
 }
 
 fn vi(v: u64) -> Vec<u8> {
@@ -842,7 +904,7 @@ fn main() {
         let _ = max_inputs;
         let w = &mut world.as_mut().unwrap().1;
         w.max_inputs = w.inputs.saturating_add(per_seed);
-        let before = (w.inputs, w.frames, w.convergence_checks, w.legit_checks, w.retention_checks, w.lonely_floods);
+        let before = (w.inputs, w.frames, w.convergence_checks, w.legit_checks, w.retention_checks, w.lonely_floods, w.malformed_trigger_checks);
         let (kind, desc) = run_seed(seed, thorough, w);
         res.runs += w.inputs - before.0;
         *res.configs.entry(format!("{kind}/{:?}", w.auth)).or_default() += 1;
@@ -851,6 +913,7 @@ fn main() {
         res.obs.add("service_checks_with_wellbehaved_client", w.convergence_checks - before.2);
         res.obs.add("same_frame_legitimate_event_checks", w.legit_checks - before.3);
         res.obs.add("message_discarded_checks", w.retention_checks - before.4);
+        res.obs.add("malformed_trigger_discarded_checks", w.malformed_trigger_checks - before.6);
         res.obs.add("floods_with_only_unauthorized_connections", w.lonely_floods - before.5);
         res.obs.max("max_single_allocation_request_bytes", w.max_single_seen as u64);
         if kind == "exhaustive-short" {
@@ -872,6 +935,6 @@ fn main() {
     let _ = std::fs::remove_file(&progress);
     let mut j = res.to_json();
     j["harness_errors"] = json!([]);
-    j["rule"] = json!("evaluations = individual hostile messages, each followed by one server frame under catch_unwind with the counting allocator armed; cases come in blocks per seed: exhaustive (all byte strings of length 1..2 [quick] / 1..3 [thorough] with a fixed first byte, on one channel, from one sender; blocks enumerate channel x sender x first byte), acknowledgement lists, structure-aware event / mapped-event / trigger encodings with inflated lengths and boundary entity bits, random varint-heavy strings, batches interleaved with legitimate traffic and other clients connecting/leaving; every block ends with a service check through a well-behaved client; after every server frame each hostile message must have been released by the server (Bytes::is_unique on a retained clone); blocks of kind acks/random/batched additionally start a fresh server whose only connections are unauthorized, flood it for 20..80 frames (same monitors) and then let a well-behaved client join; distinct_nontrivial = distinct blocks");
+    j["rule"] = json!("evaluations = individual hostile messages, each followed by one server frame under catch_unwind with the counting allocator armed; cases come in blocks per seed: exhaustive (all byte strings of length 1..2 [quick] / 1..3 [thorough] with a fixed first byte, on one channel, from one sender; blocks enumerate channel x sender x first byte), acknowledgement lists, structure-aware event / mapped-event / trigger encodings with inflated lengths and boundary entity bits, random varint-heavy strings, batches interleaved with legitimate traffic and other clients connecting/leaving; every block ends with a service check through a well-behaved client; a well-behaved client's event and its trigger aimed at one entity are queued behind hostile messages of the same frame (the trigger must be observed once, for that entity only); a trigger message whose target list does not decode under the harness' reference decoder must not produce an observation; after every server frame each hostile message must have been released by the server (Bytes::is_unique on a retained clone); blocks of kind acks/random/batched additionally start a fresh server whose only connections are unauthorized, flood it for 20..80 frames (same monitors) and then let a well-behaved client join; distinct_nontrivial = distinct blocks");
     write_json(&out, &j);
 }
